@@ -10,6 +10,7 @@ Whole-message helpers shared by the framing checks (C04, C17, ...):
 import os
 
 from harness import core, gen_layouts
+from harness import objs
 
 ONE_BIT = 31031  # DATA PRESENT INDICATOR, flag table, 1 bit
 
@@ -147,7 +148,7 @@ def impl_encode(json_sections, ignore_declared=True):
     """-> {'hex':..., 'trace': [[index, nbits]...], 'lengths': {...}} or {'err': tag}"""
     from pybufrkit.encoder import Encoder
     try:
-        m = Encoder(ignore_declared_length=ignore_declared).process(json_sections, wire_template_data=False)
+        m = objs.encoder(ignore_declared_length=ignore_declared).process(json_sections, wire_template_data=False)
     except Exception as e:  # noqa
         return {'err': core.err_tag(e)}
     b = m.serialized_bytes
@@ -167,7 +168,7 @@ def canon_section(s):
 def impl_decode(b, info_only=False, ignore_expect=False):
     from pybufrkit.decoder import Decoder
     try:
-        m = Decoder().process(b, info_only=info_only, ignore_value_expectation=ignore_expect,
+        m = objs.decoder().process(b, info_only=info_only, ignore_value_expectation=ignore_expect,
                               wire_template_data=False)
     except Exception as e:  # noqa
         return {'err': core.err_tag(e)}
